@@ -322,7 +322,10 @@ def main(argv: list[str]) -> int:
 
 
 def run_children(pid, tier, seed, nshards, budget) -> list[dict]:
-    tmp = tempfile.mkdtemp(prefix=f"vmon-{pid}-")
+    # shard outputs live under the checkout (git-ignored), not /tmp: other jobs clean /tmp
+    work = os.path.join(VERIF, ".work", "shards")
+    os.makedirs(work, exist_ok=True)
+    tmp = tempfile.mkdtemp(prefix=f"vmon-{pid}-", dir=work)
     procs = []
     env = dict(os.environ, VERIF_SEED=str(seed), VERIF_TIER=tier, VERIF_BUDGET=str(budget))
     for s in range(nshards):
@@ -346,7 +349,10 @@ def run_children(pid, tier, seed, nshards, budget) -> list[dict]:
         if os.path.exists(outp):
             parts.append(json.load(open(outp)))
         else:
-            err = open(os.path.join(tmp, f"{s}.err")).read()[-1500:]
+            try:
+                err = open(os.path.join(tmp, f"{s}.err")).read()[-1500:]
+            except OSError:
+                err = "<shard stderr file missing>"
             parts.append(
                 {
                     "counters": {},
